@@ -492,6 +492,7 @@ static void rays_for(const GCfg &cfg, int per, int field, bool thorough, long se
 int main(int argc, char **argv) {
   Args A = parse_args(argc, argv);
   Result R(A);
+  c16_install_fault_handler();
   const std::vector< GCfg > cfgs = all_cfgs();
   if (A.replay.empty() && !freopen("/dev/null", "w", stderr)) {
   }
@@ -560,8 +561,17 @@ int main(int argc, char **argv) {
       for (int field = 0; field < 4; ++field) {
         if (field == 3 && per != 0)
           continue;
-        if (!th && field == 2 && per != 0 && per != 7)
-          continue;
+        if (!th) {
+          // quick tier: uniform field only without periodic faces; the strongly
+          // varying field and the non-dyadic boxes only for selected flags
+          const bool nondy = !find_cfg(cfgs, n)->dyadic;
+          if (field == 0)
+            continue;
+          if (field == 2 && per != 0 && per != 7)
+            continue;
+          if (nondy && per != 0 && per != 7)
+            continue;
+        }
         tasks.push_back({find_cfg(cfgs, n), per, field});
       }
   bool cut = false;
